@@ -136,9 +136,17 @@ def o_to_pgl_roundtrip(h, chart=0, sign=1):
     A[0, 0], A[0, 1], A[1, 0], A[1, 1] = a, b, c, d
     R = lie.sl2_to_so21(A.copy())
     Bm = lie.o_to_pgl(R)
+    GEN = "no entry of A vanishes: o_to_pgl(sl2_to_so21(A)) is +-A or +-(swap-conjugate of A)"
     if h.is_sym():
         same = (Bm[0, 0] == a) & (Bm[0, 1] == b) & (Bm[1, 0] == c) & (Bm[1, 1] == d)
         neg = (Bm[0, 0] == -a) & (Bm[0, 1] == -b) & (Bm[1, 0] == -c) & (Bm[1, 1] == -d)
+        same2 = (Bm[0, 0] == d) & (Bm[0, 1] == c) & (Bm[1, 0] == b) & (Bm[1, 1] == a)
+        neg2 = (Bm[0, 0] == -d) & (Bm[0, 1] == -c) & (Bm[1, 0] == -b) & (Bm[1, 1] == -a)
+        # independent of the known finding (which of the two conventions): any other answer is a new violation; also for determinant -1
+        generic = (a != 0) & (b != 0) & (c != 0) & (d != 0)
+        h.holds(GEN, (~generic) | same | neg | same2 | neg2)
+        if sign != 1:
+            return
         h.holds("o_to_pgl(sl2_to_so21(A)) = +-A", same | neg)
         # what the code actually computes (an automorphism of SL(2) applied to A: conjugation by the coordinate swap)
         same2 = (Bm[0, 0] == d) & (Bm[0, 1] == c) & (Bm[1, 0] == b) & (Bm[1, 1] == a)
@@ -146,6 +154,12 @@ def o_to_pgl_roundtrip(h, chart=0, sign=1):
         h.holds("o_to_pgl(sl2_to_so21(A)) = +-(swap-conjugate of A)", same2 | neg2)
     else:
         Bf = np.asarray(Bm, dtype=float)
+        S = A[::-1, ::-1]
+        Af = np.asarray(A, dtype=float)
+        generic = bool(np.all(np.abs(Af) > 1e-6))
+        h.holds(GEN, (not generic) or any(np.allclose(Bf, X, atol=1e-7) for X in (Af, -Af, Af[::-1, ::-1], -Af[::-1, ::-1])))
+        if sign != 1:
+            return
         h.holds("o_to_pgl(sl2_to_so21(A)) = +-A", bool(np.allclose(Bf, A, atol=1e-7) or np.allclose(Bf, -A, atol=1e-7)))
         S = A[::-1, ::-1]
         h.holds("o_to_pgl(sl2_to_so21(A)) = +-(swap-conjugate of A)", bool(np.allclose(Bf, S, atol=1e-7) or np.allclose(Bf, -S, atol=1e-7)))
